@@ -6,6 +6,13 @@
 (*  generated accept ignore possible returned panic inaccept inignored       *)
 (*            internal digestok verifies reloadsame - one generator call     *)
 (* (digestok comes from the driver's independent digest implementation)      *)
+(*  frame     via claimed addr hdr signer outcome session stored - one step  *)
+(*            of a HISTORY against one long-lived victim: a ping, hop record *)
+(*            or peering request that claims the address of cast member      *)
+(*            `claimed` (addr: own / one bit flipped), shows the key material *)
+(*            of member `hdr` and is signed with the key of member `signer`   *)
+(*  hist      op outcome - the other steps of such a history: every session   *)
+(*            idles and the real cleaner ticks; the victim pings a member     *)
 (***************************************************************************)
 EXTENDS Identity
 
@@ -25,6 +32,21 @@ PresentOK ==
   \* whatever tuple the holder of the key presents now, the key learned then stays bound
   /\ Ev.met => (Ev.session /\ Ev.boundkey = "previous")
 
+(* A history: sessions are made, used, idle away, are removed by the cleaner and made again - for the same and for  *)
+(* other addresses.  Whatever came before, the victim accepts something in the name of address X only under the key   *)
+(* X is the digest of (every member of the cast is a genuine identity: its address is the digest of its own key and   *)
+(* of nobody else's); the frame or request X signs itself is accepted; an address that is the digest of nothing       *)
+(* presented gets neither session nor record.  (A genuine hop record need not be accepted: the announcement around it *)
+(* may be stale.)                                                                                                      *)
+FrameOK ==
+  LET own == Ev.addr = "own" /\ Ev.signer = Ev.claimed IN
+  /\ Ev.outcome \in {"ok", "error"}                                                 \* never a crash
+  /\ Ev.outcome = "ok" => own                                                       \* AcceptOnlyUnderTheKeyOfTheAddress
+  /\ (own /\ Ev.hdr = Ev.claimed /\ Ev.via \in {"ping", "peering"}) => Ev.outcome = "ok"
+  /\ Ev.addr # "own" => (~Ev.session /\ ~Ev.stored)                                 \* BindingOnlyIfProved
+
+HistOK == Ev.outcome \in {"ok", "error"}
+
 GeneratedOK ==
   /\ ~Ev.panic
   /\ Ev.returned => (Ev.inaccept /\ ~Ev.inignored /\ ~Ev.internal /\ Ev.digestok /\ Ev.verifies /\ Ev.reloadsame)   \* GeneratorSound
@@ -34,6 +56,8 @@ TraceNext ==
   /\ l <= Len(Trace) /\ l' = l + 1
   /\ \/ Ev.ev = "present" /\ PresentOK = TRUE
      \/ Ev.ev = "generated" /\ GeneratedOK = TRUE
+     \/ Ev.ev = "frame" /\ FrameOK = TRUE
+     \/ Ev.ev = "hist" /\ HistOK = TRUE
   /\ UNCHANGED vars
 
 TraceAccepted ==
